@@ -39,6 +39,28 @@ def assemble(template_path):
     cache = {}
     while i < len(lines):
         line = lines[i]
+        lx = re.match(r"^(\s*)//@letexpr\s+(\S+)\s*::\s*(.*)$", line)
+        if lx:
+            # the initializer expression of `let <var> = EXPR;` inside a function of /repo, verbatim; the template
+            # supplies the function that surrounds it (the rest of the enclosing function is NOT in the unit)
+            indent, rel, sel = lx.group(1), lx.group(2), [x.strip() for x in lx.group(3).split("::")]
+            var, sel = sel[-1], sel[:-1]
+            path = os.path.join(REPO, rel)
+            if not os.path.exists(path):
+                raise extract.AnchorLost(f"file missing: {rel}")
+            src = cache.setdefault(path, open(path).read())
+            it = extract.find_item(src, sel)
+            attrs, sig, body = extract.fn_parts(it)
+            expr, first = let_initializer(body, var)
+            body_first_line = src.count("\n", 0, it.body_start) + 1
+            for k, bl in enumerate(expr.split("\n")):
+                out.append(bl if k else indent + bl)
+                linemap.append((len(out), ("repo-body", rel, body_first_line + first + k, sel[-1])))
+            manifest.append({"file": rel, "item": " :: ".join(sel) + " :: let " + var, "first_line": body_first_line + first,
+                             "last_line": body_first_line + first + expr.count("\n"), "sha256": hashlib.sha256(expr.encode()).hexdigest(),
+                             "dropped": ["everything of the enclosing function except this initializer expression"], "changed": []})
+            i += 1
+            continue
         m = re.match(r"^(\s*)//@item(?:\[([a-z_,]+)\])?\s+(\S+)\s*::\s*(.*)$", line)
         if not m:
             linemap.append((len(out) + 1, ("template", i + 1)))
@@ -172,6 +194,25 @@ def assemble(template_path):
 
 
 BODYSTART = " /*@bodystart*/"
+
+
+def let_initializer(body, var):
+    """text of EXPR in the unique `let <var> = EXPR;` of a function body, and the line offset where it starts"""
+    toks = [(k, t, p) for k, t, p in extract.tokenize(body) if k not in ("ws", "comment")]
+    hits = [i for i in range(len(toks) - 2) if toks[i][1] == "let" and toks[i + 1][1] == var and toks[i + 2][1] == "="]
+    if len(hits) != 1:
+        raise extract.AnchorLost(f"`let {var} =` occurs {len(hits)} times (expected once)")
+    start_tok = hits[0] + 3
+    depth = 0
+    for k, t, p in toks[start_tok:]:
+        if t in "([{" and k == "punct":
+            depth += 1
+        elif t in ")]}" and k == "punct":
+            depth -= 1
+        elif t == ";" and k == "punct" and depth == 0:
+            a = toks[start_tok][2]
+            return body[a:p], body.count("\n", 0, a)
+    raise extract.AnchorLost(f"initializer of `let {var}` has no terminating `;`")
 
 
 def replace_tokens(body, old, new):
